@@ -11,6 +11,7 @@ import (
 	"go/constant"
 	"go/token"
 	"go/types"
+	"strings"
 
 	"github.com/goplus/gogen/internal/vp"
 )
@@ -485,4 +486,162 @@ func VerifH_C06_initresidue() {
 		vp.Assert("C06.initresidue.args", same)
 	}
 	vp.Cover("ALL.c06.initresidue.later", first >= 1)
+}
+
+// Overloaded operators on named types (XGo_Add family reached through BinaryOp, XGo_Neg through
+// UnaryOp): the first applicable candidate is called with its result type; if none applies the
+// operation is rejected (also when the underlying type has the builtin operator).
+func VerifH_C06_operators() {
+	ncand := 2 + vp.Choose("ncand", 2)
+	pts := verifOvParamTypes()
+	type cand struct {
+		param  types.Type
+		result types.Type
+	}
+	cands := make([]cand, ncand)
+	for i := range cands {
+		cands[i] = cand{pts[vp.Choose("p"+string(rune('0'+i)), len(pts))], verifOvResults[i]}
+	}
+	basicUnder := vp.Choose("under", 2) == 1
+	self := vp.Choose("selfarg", 4) == 3 // a + a
+	spec := verifArgSpec{}
+	if !self {
+		spec = verifChooseArg("x")
+	}
+	mkType := func(pkg *Package) *types.Named {
+		var u types.Type = types.NewStruct(nil, nil)
+		if basicUnder {
+			u = types.Typ[types.Int]
+		}
+		return types.NewNamed(types.NewTypeName(token.NoPos, pkg.Types, "N", nil), u, nil)
+	}
+	mkMethod := func(pkg *Package, t *types.Named, name string, c cand) *types.Func {
+		recv := types.NewVar(token.NoPos, pkg.Types, "recv", t)
+		sig := types.NewSignatureType(recv, nil, nil, types.NewTuple(types.NewParam(token.NoPos, pkg.Types, "b", c.param)), types.NewTuple(types.NewParam(token.NoPos, pkg.Types, "", c.result)), false)
+		m := types.NewFunc(token.NoPos, pkg.Types, name, sig)
+		t.AddMethod(m)
+		return m
+	}
+	apply := func(pkg *Package, t *types.Named) (r verifCallResult) {
+		cb := pkg.CB()
+		var ret *Element
+		class := vp.Try(func() {
+			cb.Val(verifNonConst("a", t))
+			if self {
+				cb.Val(verifNonConst("a", t))
+			} else {
+				cb.Val(verifMkArg("a0", spec))
+			}
+			cb.BinaryOp(token.ADD)
+			ret = cb.InternalStack().Pop()
+		})
+		r.fault = class == vp.FaultPanic
+		r.ok = class == vp.NoPanic
+		if r.ok {
+			r.retType = ret.Type
+			if c, isCall := ret.Val.(*ast.CallExpr); isCall {
+				r.callee = verifExprKey(c.Fun)
+				for _, a := range c.Args {
+					r.argKeys = append(r.argKeys, verifExprKey(a))
+				}
+			} else {
+				r.callee = "<builtin operator>"
+			}
+		}
+		return
+	}
+	// reference: each candidate alone as the (non-overloaded) operator method
+	single := make([]verifCallResult, ncand)
+	for i, c := range cands {
+		p := verifNewPkg()
+		t := mkType(p)
+		mkMethod(p, t, "XGo_Add", c)
+		single[i] = apply(p, t)
+		vp.Assert("C17.c06.operators.single.nofault", !single[i].fault)
+	}
+	pkg := verifNewPkg()
+	t := mkType(pkg)
+	var ms []types.Object
+	for i, c := range cands {
+		ms = append(ms, mkMethod(pkg, t, "XGo_Add__"+string(rune('0'+i)), c))
+	}
+	NewOverloadMethod(t, token.NoPos, pkg.Types, "XGo_Add", ms...)
+	fam := apply(pkg, t)
+	vp.Assert("C17.c06.operators.family.nofault", !fam.fault)
+	first := -1
+	for i := range single {
+		if single[i].ok && single[i].callee != "<builtin operator>" {
+			first = i
+			break
+		}
+	}
+	vp.FactBool("basicunder", basicUnder)
+	if first < 0 {
+		vp.Assert("C06.operators.none.rejected", !fam.ok)
+		return
+	}
+	vp.Assert("C06.operators.first.accepted", fam.ok)
+	if !fam.ok {
+		return
+	}
+	want := strings.Replace(single[first].callee, "XGo_Add", "XGo_Add__"+string(rune('0'+first)), 1)
+	vp.Observe("callee.got", fam.callee)
+	vp.Observe("callee.want", want)
+	vp.Assert("C06.operators.first.callee", fam.callee == want)
+	vp.Assert("C06.operators.first.rettype", types.Identical(fam.retType, single[first].retType))
+	same := len(fam.argKeys) == len(single[first].argKeys)
+	for i := 0; same && i < len(fam.argKeys); i++ {
+		same = fam.argKeys[i] == single[first].argKeys[i]
+	}
+	vp.Assert("C06.operators.noresidue.args", same)
+	vp.Cover("ALL.c06.operators.later", first >= 1)
+}
+
+// Overloaded unary operators: a family of parameterless candidates resolves to candidate 0.
+func VerifH_C06_unaryoperators() {
+	ncand := 1 + vp.Choose("ncand", 3)
+	pkg := verifNewPkg()
+	var u types.Type = types.NewStruct(nil, nil)
+	if vp.Choose("under", 2) == 1 {
+		u = types.Typ[types.Int]
+	}
+	t := types.NewNamed(types.NewTypeName(token.NoPos, pkg.Types, "N", nil), u, nil)
+	var ms []types.Object
+	for i := 0; i < ncand; i++ {
+		recv := types.NewVar(token.NoPos, pkg.Types, "recv", t)
+		sig := types.NewSignatureType(recv, nil, nil, nil, types.NewTuple(types.NewParam(token.NoPos, pkg.Types, "", verifOvResults[i])), false)
+		name := "XGo_Neg"
+		if ncand > 1 {
+			name += "__" + string(rune('0'+i))
+		}
+		m := types.NewFunc(token.NoPos, pkg.Types, name, sig)
+		t.AddMethod(m)
+		ms = append(ms, m)
+	}
+	if ncand > 1 {
+		NewOverloadMethod(t, token.NoPos, pkg.Types, "XGo_Neg", ms...)
+	}
+	vp.Fact("ncand", ncand)
+	cb := pkg.CB()
+	var ret *Element
+	class := vp.Try(func() {
+		cb.Val(verifNonConst("a", t)).UnaryOp(token.SUB)
+		ret = cb.InternalStack().Pop()
+	})
+	vp.Assert("C17.c06.unaryoperators.nofault", class != vp.FaultPanic)
+	vp.Assert("C06.unaryoperators.accepted", class == vp.NoPanic)
+	if class != vp.NoPanic {
+		return
+	}
+	vp.Assert("C06.unaryoperators.rettype", types.Identical(ret.Type, verifOvResults[0]))
+	c, isCall := ret.Val.(*ast.CallExpr)
+	vp.Assert("C06.unaryoperators.call", isCall)
+	if isCall {
+		key := verifExprKey(c.Fun)
+		want := "XGo_Neg"
+		if ncand > 1 {
+			want = "XGo_Neg__0"
+		}
+		vp.Assert("C06.unaryoperators.callee", strings.HasSuffix(key, "."+want))
+	}
 }
